@@ -1199,7 +1199,12 @@ def oracle_full(ctx, prog, tag):
         missing = sorted(set(docf) - set(allf))
         extra_f = sorted(set(allf) - set(docf)) if not has_cls else []
         if missing or extra_f or (not has_cls and len(allf) != len(docf)):
-            failed |= bool(ctx.fail("%s:names-f" % tag, "Fortran specific procedures differ from the documented names: missing %s, undocumented %s "
+            lw = prog.get("wrap") or (True, True, False, False)
+            # library-level wrap_c: false with wrap_fortran: true is a configuration of its own (open finding: only the
+            # functions that get a _CFI / _bufferify clone keep a Fortran specific); it has its own key so that the
+            # finding never hides a disagreement in any other configuration
+            fkey = "%s:names-f" % tag if (lw[0] or not lw[1] or extra_f) else "%s:names-f:library-wrap_c-off-fortran-on" % tag
+            failed |= bool(ctx.fail(fkey, "Fortran specific procedures differ from the documented names: missing %s, undocumented %s "
                                     "(%d generated, %d documented)" % (missing, extra_f, len(allf), len(docf)), replay))
         # generic interfaces: per generic name exactly the specifics of that scope's C++ name
         got = sorted((k, tuple(sorted(mem))) for v in ftab.values() for k, mem in v[2].items())
